@@ -33,6 +33,12 @@ type Addr struct {
 
 type State map[string]string
 
+type opaqueLoad struct {
+	st   State
+	base string
+	t    types.Type
+}
+
 type Obl struct {
 	Name   string
 	Kind   string
@@ -104,6 +110,11 @@ type Gen struct {
 	cloBind    map[string]ssa.Value
 	stableLoc  map[*ssa.Alloc]bool
 	curStore   *storeRec
+	// opaqueSrc: for an opaque (non-transparent) struct value obtained by a whole-struct load, where it was loaded from
+	// (state snapshot + object ref), so that a later whole-struct store of the same SSA value copies field by field
+	opaqueSrc map[ssa.Value]*opaqueLoad
+	curOpaque *opaqueLoad
+	zeroing   bool // storeValue is writing the zero value of a fresh allocation
 	curCode    string
 	preAlloc   string
 	wfSeen     map[string]bool
@@ -619,6 +630,16 @@ func (g *Gen) storeValue(a Addr, t types.Type, val string, depth int) {
 			// the fields of the destination are overwritten as well: their per-field heaps (read by x.f) must not keep
 			// the values from before the copy. The copied value is opaque, so they become unknown (sound; found by a
 			// contract-writing agent: `*dst = src` of a fiber.Config left dst.TrustProxy at its old value).
+			if src := g.curOpaque; src != nil && depth == 0 && src.base != "" && a.Base != "" && types.Identical(src.t, t) {
+				// the value is the one loaded from src.base in state src.st: copy field by field (what the Go assignment does)
+				g.copyFields(a.Base, src.base, src.st, t, 0)
+				return
+			}
+			if g.zeroing {
+				// the zero value of a freshly allocated object: the nested object's fields are zero as well
+				g.zeroFields(a.Base, t, depth)
+				return
+			}
 			g.havocFields(a.Base, t, depth)
 			return
 		}
@@ -652,6 +673,69 @@ func (g *Gen) havocFields(base string, t types.Type, depth int) {
 			continue
 		}
 		g.store(Addr{Heap: hn, Base: base, Sort: vs}, g.newConst("hv", vs))
+	}
+}
+
+// zeroFields: every scalar field of the freshly allocated struct object at base holds its zero value (nested structs of
+// this module included; array-typed fields and foreign nested structs are left unknown).
+func (g *Gen) zeroFields(base string, t types.Type, depth int) {
+	stt, ok := structOf(t)
+	if !ok || base == "" || depth > 5 || stt.NumFields() > 300 {
+		return
+	}
+	for i := 0; i < stt.NumFields(); i++ {
+		hn, vs, ft := g.fieldHeap(t, i)
+		switch fu := ft.Underlying().(type) {
+		case *types.Array:
+			continue
+		case *types.Struct:
+			if n, ok := ft.(*types.Named); ok && !isModulePkg(n.Obj().Pkg()) {
+				continue
+			}
+			_ = fu
+			g.zeroFields(g.subref(t, i, base), ft, depth+1)
+			continue
+		}
+		g.store(Addr{Heap: hn, Base: base, Sort: vs}, g.zero(ft))
+	}
+}
+
+// copyFields: the struct object at dst receives, field by field, the values the object at src held in state st
+// (whole-struct copy `*dst = *src` of a struct that is too large for a datatype value).
+func (g *Gen) copyFields(dst, src string, st State, t types.Type, depth int) {
+	stt, ok := structOf(t)
+	if !ok || depth > 5 || stt.NumFields() > 300 {
+		g.havocFields(dst, t, depth)
+		return
+	}
+	// all source values are read first (dst and src may be the same object)
+	type wr struct {
+		a Addr
+		v string
+	}
+	var ws []wr
+	var rec func(dst, src string, t types.Type, depth int)
+	rec = func(dst, src string, t types.Type, depth int) {
+		stt, _ := structOf(t)
+		for i := 0; i < stt.NumFields(); i++ {
+			hn, vs, ft := g.fieldHeap(t, i)
+			if sst, isSt := structOf(ft); isSt {
+				ds, ss := g.subref(t, i, dst), g.subref(t, i, src)
+				oh := "O_" + typeKey(ft)
+				ws = append(ws, wr{Addr{Heap: oh, Base: ds, Sort: "Int"}, g.loadIn(st, Addr{Heap: oh, Base: ss, Sort: "Int"})})
+				if depth < 5 && sst.NumFields() <= 300 {
+					rec(ds, ss, ft, depth+1)
+				} else {
+					g.havocFields(ds, ft, depth+1)
+				}
+				continue
+			}
+			ws = append(ws, wr{Addr{Heap: hn, Base: dst, Sort: vs}, g.loadIn(st, Addr{Heap: hn, Base: src, Sort: vs})})
+		}
+	}
+	rec(dst, src, t, depth)
+	for _, w := range ws {
+		g.store(w.a, w.v)
 	}
 }
 
